@@ -43,6 +43,16 @@ PROPS = {
             "handles stay valid across restarts: structural in the model (the handle table is untouched by restart steps)",
         ],
     },
+    "C18": {
+        "kind": "rt18",
+        "modules": ["Hannibal.Props.C18", "Hannibal.Props.C18Current"],
+        "theorems": ["Hannibal.C18_holds", "Hannibal.C18_current", "Hannibal.wellWired18_current"],
+        "cases": {"quick": {}, "thorough": {}},
+        "assumptions": [
+            "per-runtime task semantics (drop = detach on tokio/async-std, cancel on smol) are modelled, validated by the real runtimes",
+            "panics are outside the family; programs are timing independent except generous timeouts",
+        ],
+    },
     "C12": {
         "modules": ["Hannibal.Props.C12"],
         "theorems": ["Hannibal.C12_holds", "Hannibal.C12_current", "Hannibal.C12_state",
